@@ -84,8 +84,8 @@ PROPS = {
         "assumptions": ASSUME_COMMON + ["published definitions as typed in harness/src/refmodel (CIE 15, RGB standards, Smith hexcone, Ottosson's ok_color.h, hsluv.org rev 4); events whose model image has negative linear light in an RGB-based space are outside the definitions and not judged"],
     },
     "C07": {
-        "runs": [{"mode": "native-dev", "bin": "c07"}],
-        "expect_monitors": ["finite_conversions", "finite_clamp"],
+        "runs": [{"mode": "native-dev", "bin": "c07"}, {"mode": "native-dev", "bin": "c07ops"}],
+        "expect_monitors": ["finite_conversions", "finite_clamp", "finite_operators_blends_differences"],
         "assumptions": ASSUME_COMMON + ["documented ranges typed from the min_*/max_* accessors and type docs (refmodel::space::Space::ranges)"],
     },
     "C12": {
